@@ -10,7 +10,11 @@ package textanalyzer
 //   - Compress: "removes only safe stopwords ... while strictly preserving logical
 //     operators, negations" (package doc of compressor.go). The word list is the one
 //     the package documents: not, no, never, and, or, but, if (package doc), unless
-//     ("Must preserve" comment), non, mai, e, o, ma, se (package doc).
+//     ("Must preserve" comment), non, mai, e, o, ma, se (package doc). "Never removes negations"
+//     (property statement) is also judged for the words that are negations without being on that
+//     list: contracted negated auxiliaries (isn't ... mightn't, also split in two tokens by a
+//     typographic apostrophe) and single-word negatives (cannot, nor, nobody, né, nessuno, ...),
+//     see c20Negations / c20NegFragments.
 //   - tokens of Compress: smartTokenize's doc - words are runs of letters, numbers,
 //     apostrophes and hyphens; everything else separates. The reference tokenizer
 //     below is written from that sentence.
@@ -64,6 +68,63 @@ var c20Langs = []string{"english", "italian", "en", "it", "", "eng", "ita", "EN"
 var c20Preserved = map[string]bool{
 	"not": true, "no": true, "never": true, "and": true, "or": true, "but": true, "if": true, "unless": true,
 	"non": true, "mai": true, "e": true, "o": true, "ma": true, "se": true,
+}
+
+// c20Negations: further words that ARE negations ("lexical compression never removes negations"): the
+// contracted negated auxiliaries - the n't is the "not" of the clause; dropping "hasn't" turns "the server
+// hasn't restarted" into "server restarted" - and the single-word negatives of the two languages. Like the
+// documented words they must survive compression with their multiplicity, in any letter case. The
+// apostrophe may be the ASCII one or U+02BC (a modifier letter): both stay inside the compressor's token.
+var c20Negations = func() map[string]bool {
+	m := map[string]bool{}
+	for _, w := range []string{
+		"isn't", "aren't", "wasn't", "weren't", "hasn't", "haven't", "hadn't", "don't", "doesn't", "didn't",
+		"can't", "couldn't", "won't", "wouldn't", "shouldn't", "mustn't", "needn't", "ain't", "shan't", "mightn't",
+		"cannot", "nor", "neither", "none", "nobody", "nothing", "nowhere",
+		"né", "nessuno", "nessuna", "niente", "nulla", "neanche", "nemmeno", "neppure",
+	} {
+		m[w] = true
+	}
+	return m
+}()
+
+// c20NegFragments: written with a typographic apostrophe (U+2019 and other punctuation apostrophes) a
+// contracted negation is TWO tokens of the documented tokenizer, "isn" and "t". The negation is then the
+// adjacent pair; compression may not break it (drop either half).
+var c20NegFragments = func() map[string]bool {
+	m := map[string]bool{}
+	for w := range c20Negations {
+		if strings.HasSuffix(w, "n't") {
+			m[strings.TrimSuffix(w, "'t")] = true
+		}
+	}
+	return m
+}()
+
+// c20NegKey: the judged negation / connective a token stands for, "" if none.
+func c20NegKey(tok string) string {
+	l := strings.ToLower(tok)
+	if c20Preserved[l] {
+		return l
+	}
+	if strings.ContainsRune(l, '\u02bc') {
+		l = strings.ReplaceAll(l, "\u02bc", "'")
+	}
+	if c20Negations[l] {
+		return l
+	}
+	return ""
+}
+
+// c20NegPairs counts adjacent token pairs (fragment, "t") such as "isn" "t".
+func c20NegPairs(toks []string) int {
+	n := 0
+	for i := 0; i+1 < len(toks); i++ {
+		if strings.EqualFold(toks[i+1], "t") && c20NegFragments[strings.ToLower(toks[i])] {
+			n++
+		}
+	}
+	return n
 }
 
 // c20RefTokens: runs of letters / numbers / ' / - (smartTokenize's documented rule).
@@ -203,20 +264,29 @@ func c20RunText(c c20TextCase, rec *c20Recorder) (msg string) {
 	// negations / connectives survive with multiplicity
 	cin := map[string]int{}
 	cout := map[string]int{}
+	var order []string
 	for _, tok := range in {
-		if l := strings.ToLower(tok); c20Preserved[l] {
-			cin[l]++
+		if k := c20NegKey(tok); k != "" {
+			if cin[k] == 0 {
+				order = append(order, k)
+			}
+			cin[k]++
 		}
 	}
 	for _, tok := range out {
-		if l := strings.ToLower(tok); c20Preserved[l] {
-			cout[l]++
+		if k := c20NegKey(tok); k != "" {
+			cout[k]++
 		}
 	}
-	for _, w := range []string{"not", "no", "never", "and", "or", "but", "if", "unless", "non", "mai", "e", "o", "ma", "se"} {
+	for _, w := range order { // order of first appearance in the input: deterministic message
 		if cout[w] != cin[w] {
 			return fmt.Sprintf("Compress(lang=%q) changed the number of %q tokens from %d to %d; input %s output %s", c.Lang, w, cin[w], cout[w], c20Clip(s), c20Clip(c1))
 		}
+	}
+	// a contracted negation split by a typographic apostrophe ("isn" "t") stays an adjacent pair. Removing
+	// tokens can only create further such pairs, never legitimately destroy one.
+	if pin, pout := c20NegPairs(in), c20NegPairs(out); pout < pin {
+		return fmt.Sprintf("Compress(lang=%q) broke a contracted negation written as two tokens (n + t): %d such pairs in the input, %d in the output; input %s output %s", c.Lang, pin, pout, c20Clip(s), c20Clip(c1))
 	}
 	stage = "CompressionRatio"
 	if r := CompressionRatio(s, c1); !(r >= 0 && r <= 1) {
@@ -242,6 +312,25 @@ func c20TextLabels(c c20TextCase) (nontrivial bool, labels []string) {
 	}
 	if neg > 0 {
 		labels = append(labels, "has_negation_or_connective")
+	}
+	contr, other := 0, 0
+	for _, t := range toks {
+		if k := c20NegKey(t); k != "" && !c20Preserved[k] {
+			if strings.HasSuffix(k, "n't") {
+				contr++
+			} else {
+				other++
+			}
+		}
+	}
+	if contr > 0 {
+		labels = append(labels, "has_contracted_negation")
+	}
+	if c20NegPairs(toks) > 0 {
+		labels = append(labels, "has_contracted_negation_split_by_typographic_apostrophe")
+	}
+	if other > 0 {
+		labels = append(labels, "has_single_word_negative")
 	}
 	if !utf8.ValidString(s) {
 		labels = append(labels, "invalid_utf8")
@@ -280,7 +369,7 @@ func c20TextLabels(c c20TextCase) (nontrivial bool, labels []string) {
 }
 
 func TestVerif_C20_text(t *testing.T) {
-	col := verifkit.New("C20", "text", "rapid-generated texts (classes: empty, vocabulary words incl. negations/stop words/stemmer suffix triggers, only separators, no separators, mixed scripts, combining marks, invalid UTF-8, ~100 KB repeats, random unicode, stem+suffix constructions, small-alphabet soup, words shared by the English and the Italian analyser) x Compress language code x which analyser goes first; Tokenize, both stemmers' Analyze, Compress and CompressionRatio are run twice, and at the end of the campaign the recorded calls (all texts up to 8 KB until 1 MB is reached, plus two larger ones) are executed in the reverse order by a fresh process whose results must equal the recorded ones call by call; non-trivial = the text has >= 2 word tokens")
+	col := verifkit.New("C20", "text", "rapid-generated texts (classes: empty, vocabulary words incl. negations/stop words/stemmer suffix triggers, only separators, no separators, mixed scripts, combining marks, invalid UTF-8, ~100 KB repeats, random unicode, stem+suffix constructions, small-alphabet soup, words shared by the English and the Italian analyser, clauses negated by contracted auxiliaries / single-word negatives with ASCII and typographic apostrophes) x Compress language code x which analyser goes first; Tokenize, both stemmers' Analyze, Compress and CompressionRatio are run twice, and at the end of the campaign the recorded calls (all texts up to 8 KB until 1 MB is reached, plus two larger ones) are executed in the reverse order by a fresh process whose results must equal the recorded ones call by call; non-trivial = the text has >= 2 word tokens")
 	defer col.Finish()
 	if p := verifkit.ReplayPath(); p != "" {
 		if verifkit.ReplayPart(p) != "text" {
